@@ -80,6 +80,12 @@ TABLE = [
      "every start point of a spline is range-checked"),
     (("C01",), "<jxl_frame::data::spline::QuantSpline as jxl_oxide_common::Bundle<", "calls", "validate_spline_pos", "D56",
      "every accumulated control point of a spline is range-checked"),
+    (("C06", "C07"), "jxl_render::RenderContext::get_previous_frames_visibility", "calls", "binary_search | partition_point | Iterator::position", "seed-C06l",
+     "the noise seed of a frame counts the visible frames before THAT frame: the frame has to be located among the keyframes (the "
+     "function also runs for old frames when reset_cache rebuilds every render after a region request), not assumed to be the newest"),
+    (("C05",), "jxl_render::image::composite_preprocess", "reads", "color_channels", "seed-C05l",
+     "the bit depths zipped with the grid's buffers are laid out by the grid's own colour-channel count (a grey image coded as three "
+     "channels has one colour buffer by then), not by the number of channels the frame was coded with"),
     (("C06",), "jxl_render::util::image_region_to_frame", "reads", "frame_type", "seed-C06h",
      "a ReferenceOnly frame is a patch / blending source whatever its save_before_ct bit says (the bit is only defaulted to true when "
      "absent), and reset_cache keeps its render handle across region changes: it has to be rendered in full"),
